@@ -5,8 +5,8 @@ import (
 	"fmt"
 	"strings"
 
-	slicereader "github.com/spali/go-slicereader"
 	"github.com/spali/go-rscp/rscp"
+	slicereader "github.com/spali/go-slicereader"
 )
 
 // stream builder (C18): CreateRequest / CreateRequests on flat argument lists
